@@ -264,6 +264,80 @@ example : (runH toySpec (fun _ x _ => decide (x ≤ 100)) (fresh 5)
     [.read 1, .set () 500, .read 1, .set () 7, .set () 101, .read 1]).1 =
     [.val 6, .refused, .val 6, .done, .refused, .val 8] := by decide
 
+/-! ### round 5: settings are independent fields - setter calls on different settings commute -/
+
+section settings
+variable {Field FVal : Type} [DecidableEq Field]
+
+/-- SETTER CALLS COMMUTE.  When the code of every setter looks at its own setting only (`OwnOnly`, the semantic
+content of the decided table check `setterFrame`), two calls of DIFFERENT setters give the same public state in
+either order - whatever a setter does with its argument (store, convert, clamp, skip). -/
+theorem C18_settings_commute (F : FieldSetters Field FVal) (hL : F.Local) (hO : F.OwnOnly) {k k' : Field}
+    (h : k ≠ k') (x x' : FVal) (c : Field → FVal) :
+    F.upd k x (F.upd k' x' c) = F.upd k' x' (F.upd k x c) :=
+  FieldSetters.upd_comm F hL hO h x x' c
+
+/-- THE FINAL SETTINGS, NOT THEIR ORDER.  Any two orders of the same setter calls on pairwise different settings
+(any number of settings) establish the same public state: "a fresh object built directly with the final
+settings" is well defined. -/
+theorem C18_settings_order_irrelevant (F : FieldSetters Field FVal) (hL : F.Local) (hO : F.OwnOnly)
+    {l₁ l₂ : List (Field × FVal)} (p : l₁.Perm l₂) (nd : (l₁.map Prod.fst).Nodup) (c : Field → FVal) :
+    F.apply c l₁ = F.apply c l₂ :=
+  FieldSetters.apply_perm F hL hO p nd c
+
+/-- … hence, for the memo object over such settings (frame condition as before), every derived result after
+the setter calls in one order equals that after the calls in any other order, and that of a fresh object built
+from the final settings. -/
+theorem C18_setter_order_refines_fresh {Slot Val : Type} [DecidableEq Slot] (F : FieldSetters Field FVal)
+    (hL : F.Local) (hO : F.OwnOnly) (f : Slot → (Field → FVal) → Val) (resets : Field → List Slot)
+    (H : Frame (F.toSpec f resets)) {l₁ l₂ : List (Field × FVal)} (p : l₁.Perm l₂)
+    (nd : (l₁.map Prod.fst).Nodup) (c : Field → FVal) (i : Slot) :
+    (read (F.toSpec f resets) (run (F.toSpec f resets) (fresh c) (FieldSetters.setOps l₁)).2 i).1 =
+      (read (F.toSpec f resets) (fresh (F.apply c l₂)) i).1 := by
+  rw [C18_used_eq_fresh_final _ H, FieldSetters.finalCfg_setOps, FieldSetters.apply_perm F hL hO p nd c]
+
+end settings
+
+/-- The Y-axis limits of a monthly chart as the code is (unconditional stores): each setter looks at its own
+limit only … -/
+theorem C18_chart_limits_own : chartLimits.Local ∧ chartLimits.OwnOnly :=
+  ⟨fun _ _ _ _ _ => rfl, fun k j hj => by simpa [chartLimits] using hj⟩
+
+/-- … so minimum-then-maximum and maximum-then-minimum give the same axis, for all values and all starting
+limits (also a range entirely beyond the current one). -/
+theorem C18_chart_limits_order_irrelevant (lo hi : Int) (c : Bool → Int) :
+    chartLimits.apply c [(false, lo), (true, hi)] = chartLimits.apply c [(true, hi), (false, lo)] :=
+  C18_settings_order_irrelevant chartLimits C18_chart_limits_own.1 C18_chart_limits_own.2
+    (List.Perm.swap _ _ _) (by simp) c
+
+/-- Defect shape "cross-field check with a silent skip" (class of seeded change C18-16): with data limits 2..26,
+moving the axis to 30..60 minimum first leaves the minimum at 2 (30 >= 26 was ignored), maximum first gives
+30..60: the result depends on the order of the calls, and the setter reads the other setting. -/
+theorem C18_cross_field_skip_counterexample_shape :
+    let c : Bool → Int := fun k => if k then 26 else 2
+    (chartLimitsSkip.apply c [(false, 30), (true, 60)] false = 2 ∧
+     chartLimitsSkip.apply c [(true, 60), (false, 30)] false = 30) ∧ ¬ chartLimitsSkip.OwnOnly := by
+  refine ⟨by decide, fun h => ?_⟩
+  have := h false true (by simp [chartLimitsSkip])
+  cases this
+
+/-- non-vacuity: the limits as the code is, 30..60 from 2..26 in both orders -/
+example : (chartLimits.apply (fun k => if k then 26 else 2) [(false, 30), (true, 60)] false,
+    chartLimits.apply (fun k => if k then 26 else 2) [(true, 60), (false, 30)] true) = (30, 60) := by decide
+
+/-- MonthlyChart: the regenerated table says that `set_minimum_by_index` / `set_maximum_by_index` load nothing
+but the list they store into (fails on a tree where one of them consults the other limit). -/
+theorem C18_setter_frame_MonthlyChart : Gen.LazyDeps.tblMonthlyChart.setterFrame = true := by decide +kernel
+/-- WindRose: none of the eight setters looks at a setting of another setter. -/
+theorem C18_setter_frame_WindRose : Gen.LazyDeps.tblWindRose.setterFrame = true := by decide +kernel
+/-- Compass: each setter looks only at what it assigns itself (north angle and north vector are ONE setting
+with two setters: both assign both attributes). -/
+theorem C18_setter_frame_Compass : Gen.LazyDeps.tblCompass.setterFrame = true := by decide +kernel
+/-- HourlyContinuousCollection is NOT a record of independent settings: the values setter checks the length
+against the analysis period that `convert_to_culled_timestep` replaces (an in-place operation; the oracle
+replays those in order). -/
+example : Gen.LazyDeps.tblHourlyContinuousCollection.setterFrame = false := by decide +kernel
+
 /-- Table machine: a refused call of a setter that has assigned nothing before its last check leaves the
 machine state unchanged. -/
 theorem C18_table_refused_preserves (t : ClassTable) (s : Setter) (st : TState) (h : s.early.isEmpty = true) :
